@@ -294,3 +294,42 @@ class LaneletDerivedFresh(History):
             yield ("distance equals the distance of a freshly constructed lanelet", deep_eq(dist, F.attr(fresh, "distance"), F))
             yield ("polygon equals the polygon of a freshly constructed lanelet",
                    deep_eq(F.attr(poly, "vertices"), F.attr(F.attr(fresh, "polygon"), "vertices"), F))
+
+
+@register
+class LaneletDerivedFresh2D(History):
+    """convert_to_2d is the other public mutator of a lanelet's geometry (the property's anchor names it next to
+    translate_rotate): the cumulative distances of a 3-D centre line include the height differences, those of the
+    converted lanelet must not"""
+    target = "commonroad.scenario.lanelet.Lanelet.convert_to_2d"
+    case = "polygon, distance and inner distance after convert_to_2d (3-D vertices)"
+    describe = "lanelet polygon, cumulative distance and inner distance after convert_to_2d equal those recomputed from the current (2-D) vertices"
+
+    def build(self, F):
+        from commonroad.scenario.lanelet import Lanelet
+
+        line = lambda name: F.array([[F.real("%s%dx" % (name, i)), F.real("%s%dy" % (name, i)), F.real("%s%dz" % (name, i))] for i in range(2)])
+        left, right = line("c2l"), line("c2r")
+        center = 0.5 * (left + right) if F.native else F.interp.binop(__import__("ast").Mult, 0.5, F.interp.binop(__import__("ast").Add, left, right))
+        return {"la": F.new(Lanelet, left, center, right, 7), "args": []}
+
+    def invoke(self, F, inp):
+        la = inp["la"]
+        F.attr(la, "distance")  # populate caches
+        F.attr(la, "inner_distance")
+        F.attr(la, "polygon")
+        F.method(la, "convert_to_2d")
+        return (F.attr(la, "distance"), F.attr(la, "inner_distance"), F.attr(la, "polygon"))
+
+    def post(self, F, inp, out):
+        from commonroad.scenario.lanelet import Lanelet
+
+        yield ("raises nothing", out.exc is None)
+        if out.exc is None:
+            la = inp["la"]
+            dist, inner, poly = out.value
+            fresh = F.new(Lanelet, F.attr(la, "left_vertices"), F.attr(la, "center_vertices"), F.attr(la, "right_vertices"), 99)
+            yield ("distance equals the distance of a freshly constructed lanelet", deep_eq(dist, F.attr(fresh, "distance"), F))
+            yield ("inner distance equals that of a freshly constructed lanelet", deep_eq(inner, F.attr(fresh, "inner_distance"), F))
+            yield ("polygon equals the polygon of a freshly constructed lanelet",
+                   deep_eq(F.attr(poly, "vertices"), F.attr(F.attr(fresh, "polygon"), "vertices"), F))
